@@ -211,6 +211,7 @@ func (it *MultIterator) SetReverse() {
 	for _, f := range it.fitArr {
 		f.SetReverse()
 	}
+	it.done = false
 }
 
 // SetForward initializes iterator to run forward
@@ -218,6 +219,7 @@ func (it *MultIterator) SetForward() {
 	for _, f := range it.fitArr {
 		f.SetForward()
 	}
+	it.done = false
 }
 
 //Start begins iteration
